@@ -215,8 +215,19 @@ func (f *FuncVC) rangeInit(st *State, x *ssa.Range) *Val {
 	m := f.val(st, x.X)
 	mt, ok := x.X.Type().Underlying().(*types.Map)
 	if !ok {
-		f.unsup("range over string")
-		return &Val{K: KUnsupported, Ty: x.Type()}
+		// range over a string: an iterator object with a hidden counter; the
+		// number of iterations (runes) is some n with 0 <= n <= len(s)
+		if m.K != KStr {
+			f.unsup("range over string")
+			return &Val{K: KUnsupported, Ty: x.Type()}
+		}
+		id := f.alloc(st)
+		n := f.sc.fresh("nrunes")
+		f.sc.declare(n, "Int")
+		f.fact(st, and(cmp("<=", "0", n), cmp("<=", n, "(gstr.len "+m.T+")")))
+		f.setHeap(st, "R:slen", "(Array Int Int)", store(f.heap(st, "R:slen", "(Array Int Int)"), id, n))
+		f.setHeap(st, "R:cnt", "(Array Int Int)", store(f.heap(st, "R:cnt", "(Array Int Int)"), id, "0"))
+		return &Val{K: KInt, Ty: x.Type(), T: id, Why: "striter"}
 	}
 	_, _, ksort, ok := f.mapHeaps(st, m, mt)
 	if !ok {
@@ -231,6 +242,19 @@ func (f *FuncVC) rangeInit(st *State, x *ssa.Range) *Val {
 
 func (f *FuncVC) rangeNext(st *State, x *ssa.Next) *Val {
 	it := f.val(st, x.Iter)
+	if it.K == KInt && it.Why == "striter" {
+		// next rune of a string: ok <=> fewer than n runes produced; byte index
+		// and rune are arbitrary values of their types (0 <= index, a valid rune)
+		cnt := f.heap(st, "R:cnt", "(Array Int Int)")
+		ln := f.heap(st, "R:slen", "(Array Int Int)")
+		okT := f.sc.define("nxt.ok", "Bool", cmp("<", sel(cnt, it.T), sel(ln, it.T)))
+		tup := x.Type().(*types.Tuple)
+		k := f.freshTyped(st, tup.At(1).Type(), "nxt.k")
+		v := f.freshTyped(st, tup.At(2).Type(), "nxt.r")
+		f.fact(st, and(cmp("<=", "0", k.T), cmp("<=", "0", v.T), cmp("<=", v.T, "1114111")))
+		f.setHeap(st, "R:cnt", "(Array Int Int)", ite(okT, store(cnt, it.T, arith("+", sel(cnt, it.T), "1")), cnt))
+		return &Val{K: KTuple, Ty: x.Type(), Fs: []*Val{vBool(okT), k, v}}
+	}
 	if it.K != KMap {
 		f.unsup("next on unsupported iterator")
 		return f.freshTyped(st, x.Type(), "next")
